@@ -1491,3 +1491,23 @@ Lemma datainfo_sources_pinned :
   SDgetoldattdatainfo_src = "8819bb2e5b107c2a6b998ba1836522aa1da79eaa6deaf3fa3471b99f6c7f4602"%string /\
   SDgetanndatainfo_src = "992d7cb55faa0a34af06c6753bd4da8984a32a198ebfea22e7698cd927ae2dbf"%string.
 Proof. repeat split; reflexivity. Qed.
+
+(* ================================================================================================== *)
+(** * 11. HIsync: whatever else is flushed, a file whose end is dirty reaches its reserved end *)
+
+Lemma hisync_steps_text :
+  HIsync_ddlist_step = "if(file_rec->dirty&DDLIST_DIRTY)"%string /\
+  HIsync_extend_step = "if(file_rec->dirty&FILE_END_DIRTY)"%string.
+Proof. split; reflexivity. Qed.
+
+Lemma extend_file_len : forall img f_end, f_end <= zlen (extend_file img f_end) /\ zlen img <= zlen (extend_file img f_end).
+Proof. intros. unfold extend_file. rewrite zlen_app. unfold zlen at 2 4. rewrite repeat_length. unfold zlen. lia. Qed.
+
+(** every descriptor that lies below the reserved end is inside the flushed file, for either state of the DD list *)
+Theorem hi_sync_reaches_end : forall img bl f_end dd_dirty d,
+  0 <= dd_off d -> 0 <= dd_len d -> dd_off d + dd_len d <= f_end ->
+  in_image (hi_sync img bl f_end dd_dirty true) d.
+Proof.
+  intros img bl f_end dd_dirty d H1 H2 H3. unfold in_image, hi_sync. right.
+  pose proof (extend_file_len (if dd_dirty then sync_blocks img bl else img) f_end) as [E _]. lia.
+Qed.
